@@ -15,3 +15,45 @@ package stdlib
 //@   props C46
 //@   nofail
 //@   env RLPDecodeListError MemoryMeteringError ComputationMeteringError
+
+// ---- C47: revertibleRandom. The random source is the host's: ReadRandom fills exactly the slice it is given
+// (assumed). Ghost state records the last draw: its length, its big-endian value, and the number of draws.
+//@ ghostvar draw uint64
+//@ ghostvar drawlen int
+//@ ghostvar draws mathint
+//@ iface RandomGenerator.ReadRandom :: self, buf -> err
+//@   assumed
+//@   nofail
+//@   option errorkind=HostError
+//@   modifies elems(buf), ghost("draw"), ghost("drawlen"), ghost("draws")
+//@   ensures err == nil ==> ghost("drawlen") == len(buf) && ghost("draw") == bevalue(buf) && ghost("draws") == old(ghost("draws")) + 1
+//@ func getRandomBytes
+//@   inline
+// maskof(x): the smallest 2^k - 1 that is >= x (all bits of x smeared to the right)
+//@ spec sm1(x) = x | (x >> 1)
+//@ spec sm2(x) = sm1(x) | (sm1(x) >> 2)
+//@ spec sm4(x) = sm2(x) | (sm2(x) >> 4)
+//@ spec sm8(x) = sm4(x) | (sm4(x) >> 8)
+//@ spec sm16(x) = sm8(x) | (sm8(x) >> 16)
+//@ spec maskof(x) = sm16(x) | (sm16(x) >> 32)
+// bytelen(x): the number of bytes needed for x
+//@ spec bytelen(x) = ite(x == 0, 0, ite(x < 256, 1, ite(x < 65536, 2, ite(x < 16777216, 3, ite(x < 4294967296, 4, ite(x < 1099511627776, 5, ite(x < 281474976710656, 6, ite(x < 72057594037927936, 7, 8))))))))
+//@ schema rr_small(N=UInt8, bytes=1)
+//@ schema rr_small(N=UInt16, bytes=2)
+//@ schema rr_small(N=UInt32, bytes=4)
+//@ schema rr_small(N=UInt64, bytes=8)
+//@ schema rr_small(N=Word8, bytes=1)
+//@ schema rr_small(N=Word16, bytes=2)
+//@ schema rr_small(N=Word32, bytes=4)
+//@ schema rr_small(N=Word64, bytes=8)
+
+// Uniformity: with mask = 2^k - 1 and n = ceil(k/8) drawn bytes, B -> (B & mask, B >> k) is a bijection from
+// [0, 2^(8n)) onto [0, mask] x [0, 2^(8n-k)): every value v <= mask has exactly 2^(8n-k) preimages B with
+// B & mask == v. Hence, each draw being uniform, the accepted value B & mask is uniform on [0, m).
+//@ spec maskk(k) = (1 << k) - 1
+//@ spec indraw(B, n) = n == 8 || B < (1 << (8 * n))
+//@ spec lenok(k, n) = k <= 64 && n <= 8 && k <= 8 * n && 8 * n < k + 8
+//@ theorem[C47] T_mask_split_injective(B1 uint64, B2 uint64, k uint64, n uint64) = lenok(k, n) && indraw(B1, n) && indraw(B2, n) && (B1 & maskk(k)) == (B2 & maskk(k)) && (B1 >> k) == (B2 >> k) ==> B1 == B2
+//@ theorem[C47] T_mask_split_surjective(v uint64, h uint64, k uint64, n uint64) = lenok(k, n) && v <= maskk(k) && h < (1 << (8 * n - k)) ==> indraw(v | (h << k), n) && ((v | (h << k)) & maskk(k)) == v && ((v | (h << k)) >> k) == h
+// the mask and byte count the contracts speak of (maskof, bytelen) are those of the bit length k of m-1
+//@ theorem[C47] T_maskof_is_bitlen_mask(x uint64, k uint64) = k <= 64 && x <= maskk(k) && (k > 0 ==> (x >> (k - 1)) != 0) ==> maskof(x) == maskk(k) && 8 * bytelen(x) >= k && 8 * bytelen(x) < k + 8
